@@ -236,7 +236,7 @@ Definition plain_int (x : real) : bool :=
   && (match r_frac x with None => true | _ => false end)
   && (match r_exp x with None => true | _ => false end).
 Definition nitem_ok (i : nitem) : bool :=
-  match i with NInterp _ _ w | NLog _ _ w => nonzero w | NMul x => plain_int x | _ => true end.
+  match i with NLog _ _ w => nonzero w | NMul x => plain_int x | _ => true end.
 Fixpoint nlist_ok (l : nlist) : bool :=
   match l with
   | NLOne i _ => is_start i && nitem_ok i
